@@ -178,6 +178,17 @@ def run_item(item):
                 if xf and info.kind in ('file', 'hunk'):
                     counters['transformed_names'] = counters.get('transformed_names', 0) + (1 if 'TR~' in t else 0)
                     t = t.replace('TR~', '', 1)
+                if prefix and info.kind == 'text' and re.search(r'\| +\d+ ', rw.text()) and not re.fullmatch(r'[0-9a-f]{7,40}', t):
+                    # a diff-stat line under --relative-paths: the path is shown relative to the user's directory and the link
+                    # names that very file
+                    exp = file_fmt.replace('{path}', norm(os.path.join(cwd, prefix, t))).replace('{line}', '')
+                    if '{host}' in exp:
+                        import socket
+                        exp = exp.replace('{host}', socket.gethostname())
+                    if uri != exp:
+                        return bad('file-target:diffstat', 'link of a diff-stat line does not name the file shown (relative to %s)' % prefix, exp, uri)
+                    counters['file_links'] += 1
+                    continue
                 if re.fullmatch(r'[0-9a-f]{7,40}', t) and re.search('[a-f]', t) and info.kind not in ('file', 'hunk', 'code'):
                     exp = commit_fmt.replace('{commit}', t)
                     if uri != exp:
